@@ -39,12 +39,16 @@ fn j127(chip: &str, path: &str, snr: u8, rssi: u8, hz: u32) -> Value {
 // ------------------------------------------------------------------------------------------ SX126x
 
 fn judge126(cj: &dyn Fn() -> Value, raw: [u8; 3], rssi: i64, snr: i64) -> Result<(), Failure> {
+    judge126_at(cj, raw, rssi, snr, "")
+}
+
+pub fn judge126_at(cj: &dyn Fn() -> Value, raw: [u8; 3], rssi: i64, snr: i64, sfx: &str) -> Result<(), Failure> {
     let s = raw[1] as i8 as i64;
     if (2 * rssi + raw[0] as i64).abs() > 2 {
-        return Err(Failure::new("pktstatus", cj(), format!("RssiPkt raw {} = -{}.{} dBm, reported {rssi} dBm", raw[0], raw[0] / 2, (raw[0] % 2) * 5)).with_fp("pktstatus-rssi/sx126x"));
+        return Err(Failure::new("pktstatus", cj(), format!("RssiPkt raw {} = -{}.{} dBm, reported {rssi} dBm", raw[0], raw[0] / 2, (raw[0] % 2) * 5)).with_fp(format!("pktstatus-rssi/sx126x{sfx}")));
     }
     if (4 * snr - s).abs() > 4 {
-        return Err(Failure::new("pktstatus", cj(), format!("SnrPkt raw {} = {} quarter-dB, reported {snr} dB", raw[1], s)).with_fp("pktstatus-snr/sx126x"));
+        return Err(Failure::new("pktstatus", cj(), format!("SnrPkt raw {} = {} quarter-dB, reported {snr} dB", raw[1], s)).with_fp(format!("pktstatus-snr/sx126x{sfx}")));
     }
     Ok(())
 }
@@ -132,7 +136,7 @@ fn adapter126(raw: [u8; 3], kf: &KnownFindings) -> Result<Option<&'static str>, 
 
 // ------------------------------------------------------------------------------------------ SX127x
 
-fn offset127(chip: &str, hz: u32) -> i64 {
+pub fn offset127(chip: &str, hz: u32) -> i64 {
     if chip == "sx1272" {
         -139
     } else if hz >= 779_000_000 {
@@ -143,11 +147,15 @@ fn offset127(chip: &str, hz: u32) -> i64 {
 }
 
 fn judge127(cj: &dyn Fn() -> Value, chip: &str, hz: u32, snr_raw: u8, rssi_raw: u8, rssi: i64, snr: i64) -> Result<(), Failure> {
+    judge127_at(cj, chip, hz, snr_raw, rssi_raw, rssi, snr, "")
+}
+
+pub fn judge127_at(cj: &dyn Fn() -> Value, chip: &str, hz: u32, snr_raw: u8, rssi_raw: u8, rssi: i64, snr: i64, sfx: &str) -> Result<(), Failure> {
     let s = snr_raw as i8 as i64;
     let r = rssi_raw as i64;
     let off = offset127(chip, hz);
     if (4 * snr - s).abs() > 4 {
-        return Err(Failure::new("pktstatus", cj(), format!("PacketSnr raw {snr_raw} = {s} quarter-dB, reported {snr} dB")).with_fp(format!("pktstatus-snr/{chip}")));
+        return Err(Failure::new("pktstatus", cj(), format!("PacketSnr raw {snr_raw} = {s} quarter-dB, reported {snr} dB")).with_fp(format!("pktstatus-snr/{chip}{sfx}")));
     }
     // units of 1/60 dB
     let mut cands: Vec<i64> = vec![];
@@ -163,7 +171,7 @@ fn judge127(cj: &dyn Fn() -> Value, chip: &str, hz: u32, snr_raw: u8, rssi_raw: 
         return Ok(());
     }
     Err(Failure::new("pktstatus", cj(), format!("PacketRssi raw {rssi_raw}, PacketSnr raw {snr_raw} ({s}/4 dB), offset {off}: datasheet value {:.2} dBm, reported {rssi} dBm", cands[0] as f64 / 60.0))
-        .with_fp(format!("pktstatus-rssi/{chip}/{}", if s >= 0 { "snr>=0" } else { "snr<0" })))
+        .with_fp(format!("pktstatus-rssi/{chip}/{}{sfx}", if s >= 0 { "snr>=0" } else { "snr<0" })))
 }
 
 fn sweep127(chip: &'static str, hz: u32, st: &mut Stats) {
